@@ -188,3 +188,72 @@ def _(tier, rng):
             for l in (True, False):
                 for d in (True, False):
                     yield dict(is_matching=m, process_contents=pcv, validation='lax', namespace_loadable=l, globally_declared=d, process_skipped=False)
+
+
+# ------------------------------------------------------------------ XsdAttributeGroup.raw_decode: which attributes are processed, and with which value
+t = Target('attributes.XsdAttributeGroup.raw_decode', ['C03', 'C04'], F, 'XsdAttributeGroup.raw_decode', bounded_only=True,
+           note='run-time contract on the real method (its main loop mixes mapping copies, exceptions and a per-context result list: outside the VC generator). With a spy on '
+                'XsdAttribute.raw_decode: the attributes handed to their declarations are exactly the instance attributes plus every absent attribute with a fixed value (and, when '
+                'defaults are enabled, a default value), each once and with that value - the same set in a validation-only context and in a decoding context (C04); the decoded '
+                'result reports an absent fixed / default attribute with its declared value, fill_missing adds only the names that are neither present nor value-constrained, and no '
+                'name is reported twice',
+           assumes=['bounded stand-in over one attribute group (fixed, default, IDREF default, optional, required, prohibited) x every subset of present attributes x use_defaults x '
+                    'fill_missing x filler x context kind'])
+
+_AG = {}
+
+
+def _ag_schema():
+    import xmlschema
+    if 's' not in _AG:
+        _AG['s'] = xmlschema.XMLSchema10('''<xs:schema xmlns:xs="http://www.w3.org/2001/XMLSchema"><xs:element name="e"><xs:complexType>
+ <xs:attribute name="f" type="xs:int" fixed="7"/><xs:attribute name="d" type="xs:string" default="dd"/><xs:attribute name="ref" type="xs:IDREF" default="nowhere"/>
+ <xs:attribute name="o" type="xs:int"/><xs:attribute name="r" type="xs:int" use="required"/></xs:complexType></xs:element></xs:schema>''')
+    return _AG['s']
+
+
+@t.concrete
+def _(inp):
+    import xmlschema
+    from xmlschema.validators.attributes import XsdAttribute
+    from xmlschema.validators.validation import ValidationContext, DecodeContext
+    from xmlschema.namespaces import NamespaceMapper
+    s = _ag_schema(); group = s.elements['e'].type.attributes
+    values = {'f': '7', 'd': 'xx', 'ref': 'nowhere', 'o': '3', 'r': '1'}
+    obj = {k: values[k] for k in inp['present']}
+    res = xmlschema.XMLResource('<e/>')
+    filler = (lambda x: 'FILL') if inp['filler'] else None
+    if inp['decode']: ctx = DecodeContext(source=res, fill_missing=inp['fill_missing'], filler=filler, use_defaults=inp['use_defaults'])
+    else: ctx = ValidationContext(source=res, converter=NamespaceMapper(None, source=res), use_defaults=inp['use_defaults'])
+    seen = []; real = XsdAttribute.raw_decode
+
+    def spy(self, value, validation, context): seen.append((self.name, value)); return real(self, value, validation, context)
+    XsdAttribute.raw_decode = spy
+    try: result = group.raw_decode(obj, 'lax', ctx)
+    finally: XsdAttribute.raw_decode = real
+    constrained = {'f': '7'}
+    if inp['use_defaults']: constrained.update(d='dd', ref='nowhere')
+    want = dict(obj); want.update({k: v for k, v in constrained.items() if k not in obj})
+    failed = []
+    if sorted(seen) != sorted(want.items()): failed.append('processed-attributes-are-the-instance-ones-plus-the-absent-value-constrained-ones')
+    if inp['decode']:
+        names = [k for k, _ in result]
+        if len(names) != len(set(names)): failed.append('no-name-reported-twice')
+        got = dict(result); exp = {'f': 7, 'd': want.get('d'), 'ref': want.get('ref'), 'o': int(want['o']) if 'o' in want else None, 'r': int(want['r']) if 'r' in want else None}
+        exp = {k: v for k, v in exp.items() if k in want}
+        if inp['fill_missing']: exp.update({k: ('FILL' if inp['filler'] else None) for k in values if k not in want})
+        if got != exp: failed.append('absent-fixed-and-default-attributes-are-reported-with-their-declared-values')
+    elif result is not None: failed.append('validation-only-builds-no-result')
+    return dict(ok=not failed, observed=dict(processed=sorted(seen), result=repr(result)[:200]), required=dict(processed=sorted(want.items())), failed=failed)
+
+
+@t.scope
+def _(tier, rng):
+    import itertools
+    names = ['f', 'd', 'ref', 'o', 'r']
+    for k in range(len(names) + 1):
+        for present in itertools.combinations(names, k):
+            for ud in (True, False):
+                yield dict(present=list(present), use_defaults=ud, decode=False, fill_missing=False, filler=False)
+                for fm, fl in ((False, False), (True, False), (True, True)):
+                    yield dict(present=list(present), use_defaults=ud, decode=True, fill_missing=fm, filler=fl)
